@@ -2,7 +2,8 @@
 # usage: applyseed.sh <patch.diff>  — applies a seeded change to /repo's working tree (never committed).
 # peg.peg.go hunks are dropped and the file is regenerated with the patched generator instead,
 # because /repo has moved on from the pinned commit (fix: commits regenerate peg.peg.go).
-P="$1"
+P=$(realpath "$1")
+[ -f "$P" ] || { echo "no such patch: $1"; exit 1; }
 cd /repo
 if ! git apply --exclude=peg.peg.go "$P" 2>/dev/null; then
   git apply --3way --exclude=peg.peg.go "$P" >/dev/null 2>&1
